@@ -12,7 +12,7 @@ echo "== seed $SEED at repo $(git -C /repo rev-parse --short HEAD) $(date -u +%F
 ( cd $SCRATCH && PYTHONPATH=$SCRATCH /venv/bin/python $DIR/demo.py >/dev/null 2>&1 ); echo "demo on clean tree: exit $?"
 if ! git -C $SCRATCH apply $DIR/patch.diff; then echo "PATCH DOES NOT APPLY"; exit 3; fi
 ( cd $SCRATCH && PYTHONPATH=$SCRATCH /venv/bin/python $DIR/demo.py >/dev/null 2>&1 ); echo "demo on patched tree: exit $?"
-/verif/tools/baseline.py $SCRATCH --fast | head -5
+[ -n "${SEED_FAST:-}" ] || /verif/tools/baseline.py $SCRATCH --fast | head -5   # SEED_FAST=1: skip the repository suite (re-verification sweeps)
 git -C /repo apply $DIR/patch.diff || { echo "PATCH DOES NOT APPLY TO /repo"; exit 3; }
 for c in "$@"; do
   out=$(cd /verif && ./check $c --tier quick 2>&1); rc=$?
